@@ -35,6 +35,7 @@ def REQUIRED(tier):
     for s in SCHEMAS:
         req[("schema-ok:" if not s.endswith("-neg") else "schema-refused-ok:") + s] = 10
     req["schema:reached-in-place"] = 300
+    req["schema:reached-by-folding"] = 100
     req["schema:asked-under-numpy-invalid-raise"] = 300
     return req
 
@@ -106,7 +107,7 @@ def classify_refusal(inst, node):
 
 
 _LISTERS = []
-FORCE = {"via": False, "hostile": False}
+FORCE = {"via": False, "hostile": False, "fold": False}
 
 
 def reached_in_place(rec, root, rng):
@@ -144,6 +145,43 @@ def reached_in_place(rec, root, rng):
         return None
 
 
+_FOLDS = {"^2": "^(4^0.5)", "^3": "^(9^0.5)", "^0.5": "^(2^-1)", "^10": "^(100^0.5)", "^2.5": "^(6.25^0.5)", "^1": "^(1^0.5)"}
+
+
+def reached_by_folding(rec, full, rng):
+    """The same tree SHAPE with numpy-typed numbers in it: exponents are first written as constant
+    powers (x^(4^0.5), x^(2^-1)) and folded by constant arithmetic, which leaves numpy scalars
+    (np.float64(2.0), np.float64(0.5)) where a parsed text has Python numbers.  Returns the folded
+    root, or None when the detour does not end in the same value-level tree as parsing `full`."""
+    import re
+    import mathy_core.rules as R
+    from mathy_core import expressions as E
+
+    hits = [m for m in re.finditer(r"\^(-?[0-9.]+)", full) if "^" + m.group(1) in _FOLDS and (m.start() > 0 and full[m.start() - 1].isalpha())]
+    if not hits:
+        return None
+    chosen = [m for m in hits if rng.random() < 0.7] or hits[:1]
+    text = full
+    for m in reversed(chosen):
+        text = text[: m.start()] + _FOLDS["^" + m.group(1)] + text[m.end():]
+    try:
+        want = vs(full)
+        root = D.parse(text)
+        ca = R.ConstantsSimplifyRule()
+        for _ in range(12):
+            pw = [n for n in S.nodes_preorder(root) if isinstance(n, E.PowerExpression) and isinstance(n.left, E.ConstantExpression)
+                  and isinstance(n.right, E.ConstantExpression) and isinstance(n.parent, E.PowerExpression) and n.parent.right is n and ca.can_apply_to(n)]
+            if not pw:
+                break
+            root = S.root_of(ca.apply_to(pw[0]).result)
+        if A.v(S.shadow(root)) != want:
+            return None
+        rec.arm("schema:reached-by-folding")
+        return root
+    except Exception:
+        return None
+
+
 def run_instance(rec, inst, rng, ctx_sample):
     try:
         want = vs(inst.text)
@@ -159,7 +197,12 @@ def run_instance(rec, inst, rng, ctx_sample):
             rec.skip("context does not parse")
             continue
         via = None
-        if FORCE["via"] or rng.random() < 0.3:
+        folded = None
+        if FORCE.get("fold") or rng.random() < 0.25:
+            folded = reached_by_folding(rec, full, rng)
+            if folded is not None:
+                root = folded
+        if folded is None and (FORCE["via"] or rng.random() < 0.3):
             via = reached_in_place(rec, root, rng)
             if via is not None:
                 root = via
@@ -198,6 +241,8 @@ def run_instance(rec, inst, rng, ctx_sample):
              "applicable": inst.applicable}
         if via is not None:
             w["reached_in_place"] = True
+        if folded is not None:
+            w["reached_by_folding"] = True
         if not inst.applicable:
             if ok:
                 w["summary"] = f"{inst.rule} accepts the documented non-applicable form '{inst.text}' in '{full}'"
@@ -580,5 +625,6 @@ def replay(rec, cfg, w):
     inst = rebuild(w)
     FORCE["via"] = bool(w.get("reached_in_place"))
     FORCE["hostile"] = bool(w.get("numpy_invalid_raise"))
-    for i in range(12 if FORCE["via"] else 1):   # the in-place detour picks its swap node at random
+    FORCE["fold"] = bool(w.get("reached_by_folding"))
+    for i in range(12 if (FORCE["via"] or FORCE["fold"]) else 1):   # the in-place detour picks its swap node at random
         run_instance(rec, inst, cfg.rng(f"replay{i}"), [w["context"]] if FORCE["via"] and w.get("context") else inst.contexts)
